@@ -96,6 +96,15 @@ Theorem C06_hpke_decrypt_never_panics :
 Proof. intros until open. intros HL. use_hpke_laws HL. intros. eapply hpke_decrypt_never_panics; eassumption. Qed.
 Print Assumptions C06_hpke_decrypt_never_panics.
 
+(* ... and neither does Encrypt (X-Wing splits the public key only after its length check). *)
+Theorem C06_hpke_encrypt_never_panics :
+  forall extract expand dh dh_pub mlkem_decap mlkem_encap mlkem_pub (shake256 : bytes -> nat -> bytes) sha3_256 seal open,
+  hpke_laws expand dh dh_pub mlkem_decap mlkem_encap mlkem_pub seal open ->
+  forall k d a prefix pkR eph info pt,
+    hpke_encrypt extract expand dh dh_pub mlkem_encap sha3_256 seal k d a prefix pkR eph info pt <> Panic.
+Proof. intros until open. intros HL. use_hpke_laws HL. intros. eapply hpke_encrypt_never_panics; eassumption. Qed.
+Print Assumptions C06_hpke_encrypt_never_panics.
+
 (* The recipient can recompute the sender's ciphertext byte for byte from the
    encapsulated key it carries (this is what the correspondence run evaluates
    on Tink's ciphertexts). *)
@@ -114,6 +123,18 @@ Theorem C06_nonce_of_first_message_is_base_nonce :
   forall bn, compute_nonce bn 0 = Ok bn.
 Proof. exact compute_nonce_seq0. Qed.
 Print Assumptions C06_nonce_of_first_message_is_base_nonce.
+
+(* RFC 9180 Appendix A.1.1: the nonces of sequence numbers 1, 2, 4, 255, 256 for
+   base_nonce 56d890e5accaaf011cff4b7d, evaluated in the model of computeNonce. *)
+Example C06_rfc9180_a11_nonces :
+  let bn := [86; 216; 144; 229; 172; 202; 175; 1; 28; 255; 75; 125] in
+  compute_nonce bn 1 = Ok [86; 216; 144; 229; 172; 202; 175; 1; 28; 255; 75; 124] /\
+  compute_nonce bn 2 = Ok [86; 216; 144; 229; 172; 202; 175; 1; 28; 255; 75; 127] /\
+  compute_nonce bn 4 = Ok [86; 216; 144; 229; 172; 202; 175; 1; 28; 255; 75; 121] /\
+  compute_nonce bn 255 = Ok [86; 216; 144; 229; 172; 202; 175; 1; 28; 255; 75; 130] /\
+  compute_nonce bn 256 = Ok [86; 216; 144; 229; 172; 202; 175; 1; 28; 255; 74; 125] /\
+  compute_nonce bn (2 ^ 96) = Err.
+Proof. vm_compute. repeat split. Qed.
 
 (* Suite ids: injective over all 7 x 3 x 3 supported suites (finite domain:
    the constructors of kem, kdf, aead), KEM ids injective, and the KEM-level
@@ -178,6 +199,19 @@ Theorem C06_hpke_binding_enc_and_info_dhkem :
     extract_collision extract \/ expand_collision expand \/ seal_collision seal.
 Proof. intros until open. intros HL. use_hpke_laws HL. intros. eapply hpke_binding_enc_info_dhkem; eassumption. Qed.
 Print Assumptions C06_hpke_binding_enc_and_info_dhkem.
+
+(* X-Wing: a decapsulation collision is a SHA3-256 collision of the combiner
+   SHA3-256(ssM || ssX || ctX || pkX || label) or an ML-KEM-768 ciphertext
+   collision (two ciphertexts with the same decapsulation under one key);
+   ML-KEM / X25519 outputs are 32 bytes. *)
+Theorem C06_xwing_decap_collision_is_sha3_or_mlkem_collision :
+  forall extract expand dh dh_pub mlkem_decap shake256 sha3_256 skR,
+    (forall seed ct ss, mlkem_decap MLKEM768 seed ct = Some ss -> length ss = 32%nat) ->
+    (forall sk pk ss, dh X25519 sk pk = Some ss -> length ss = 32%nat) ->
+    decap_collision extract expand dh dh_pub mlkem_decap shake256 sha3_256 XWING skR ->
+    sha3_collision sha3_256 \/ mlkem_ct_collision mlkem_decap.
+Proof. intros. eapply xwing_no_decap_collision; eassumption. Qed.
+Print Assumptions C06_xwing_decap_collision_is_sha3_or_mlkem_collision.
 
 (* Another private key (DHKEM: the recipient public key is in the KEM context).
    Partial: stated for the four Diffie-Hellman KEMs only; for ML-KEM / X-Wing the
@@ -256,6 +290,7 @@ Qed.
 Definition ecies_laws
     (ec_dh : curve -> bytes -> bytes -> option bytes) (ec_pub : curve -> bytes -> option bytes)
     (ec_oncurve : curve -> bytes -> bytes -> bool) (ec_decompress : curve -> bytes -> option bytes)
+    (hkdf : hash -> bytes -> bytes -> bytes -> nat -> bytes)
     (gcm_seal : bytes -> bytes -> bytes -> bytes -> bytes)
     (gcm_open : bytes -> bytes -> bytes -> bytes -> option bytes)
     (aes_ctr : bytes -> bytes -> bytes -> bytes) (hmac_sha256 : bytes -> bytes -> bytes)
@@ -268,22 +303,26 @@ Definition ecies_laws
   (* decompression recovers a point on the curve from X and the parity of Y *)
   (forall c x y, ec_oncurve c x y = true -> length x = field_size c -> length y = field_size c ->
      ec_decompress c ((if N.odd (last y 0) then 3 else 2) :: x) = Some (4 :: x ++ y)) /\
-  (* the DEM primitives *)
+  (* HKDF returns as many bytes as asked *)
+  (forall h ikm salt info n, length (hkdf h ikm salt info n) = n) /\
+  (* the DEM primitives: Open inverts Seal and accepts nothing else; sizes; CTR is an involution *)
   (forall k iv ad p, gcm_open k iv ad (gcm_seal k iv ad p) = Some p) /\
+  (forall k iv ad c p, gcm_open k iv ad c = Some p -> c = gcm_seal k iv ad p) /\
   (forall k iv ad p, length (gcm_seal k iv ad p) = (length p + 16)%nat) /\
   (forall k iv x, aes_ctr k iv (aes_ctr k iv x) = x) /\
   (forall k m, length (hmac_sha256 k m) = 32%nat) /\
-  (forall k ad p, siv_open k ad (siv_seal k ad p) = Some p).
+  (forall k ad p, siv_open k ad (siv_seal k ad p) = Some p) /\
+  (forall k ad c p, siv_open k ad c = Some p -> c = siv_seal k ad p).
 
 Ltac use_ecies_laws HL :=
-  destruct HL as (E1 & E2 & E3 & E4 & E5 & E6 & E7 & E8).
+  destruct HL as (E1 & E2 & E3 & E4 & E5 & E6 & E7 & E8 & E9 & E10 & E11).
 
 (* Round trip for every curve, hash, point format, DEM (AES-GCM, AES-SIV,
    AES-CTR-HMAC), salt, prefix, key pair, ephemeral scalar, DEM IV of the DEM's
    IV length, plaintext and info. *)
 Theorem C06_ecies_round_trip :
   forall ec_dh ec_pub ec_oncurve ec_decompress hkdf gcm_seal gcm_open aes_ctr hmac_sha256 siv_seal siv_open,
-  ecies_laws ec_dh ec_pub ec_oncurve ec_decompress gcm_seal gcm_open aes_ctr hmac_sha256 siv_seal siv_open ->
+  ecies_laws ec_dh ec_pub ec_oncurve ec_decompress hkdf gcm_seal gcm_open aes_ctr hmac_sha256 siv_seal siv_open ->
   forall c h f d salt prefix skR pkR eph iv info pt ct,
     ec_pub c skR = Some pkR -> length iv = dem_iv_size d ->
     ecies_encrypt ec_dh ec_pub ec_oncurve hkdf gcm_seal aes_ctr hmac_sha256 siv_seal
@@ -295,8 +334,8 @@ Print Assumptions C06_ecies_round_trip.
 
 (* Encoding then decoding a public point gives the point back, in all three formats. *)
 Theorem C06_ecies_point_formats_round_trip :
-  forall ec_dh ec_pub ec_oncurve ec_decompress gcm_seal gcm_open aes_ctr hmac_sha256 siv_seal siv_open,
-  ecies_laws ec_dh ec_pub ec_oncurve ec_decompress gcm_seal gcm_open aes_ctr hmac_sha256 siv_seal siv_open ->
+  forall ec_dh ec_pub ec_oncurve ec_decompress hkdf gcm_seal gcm_open aes_ctr hmac_sha256 siv_seal siv_open,
+  ecies_laws ec_dh ec_pub ec_oncurve ec_decompress hkdf gcm_seal gcm_open aes_ctr hmac_sha256 siv_seal siv_open ->
   forall c f sk P e, ec_pub c sk = Some P ->
     point_encode ec_oncurve c f P = Ok e ->
     point_decode ec_oncurve ec_decompress c f e = Ok P /\ encoding_size c f = Ok (length e).
@@ -306,6 +345,54 @@ Proof.
   split; [exact (point_decode_encode _ _ E3 _ _ _ _ L H4 He)|exact (point_encode_length _ _ E3 _ _ _ _ He L H4)].
 Qed.
 Print Assumptions C06_ecies_point_formats_round_trip.
+
+(* Exact acceptance: Decrypt returns p exactly for prefix || kem || DEM-frame(key, iv, p)
+   with kem of the format's size, key the HKDF of (kem || dh, salt, info) and an
+   IV of the DEM's IV size; anything shorter than prefix + header is rejected. *)
+Theorem C06_ecies_decrypt_accepts_exactly :
+  forall ec_dh ec_pub ec_oncurve ec_decompress hkdf gcm_seal gcm_open aes_ctr hmac_sha256 siv_seal siv_open,
+  ecies_laws ec_dh ec_pub ec_oncurve ec_decompress hkdf gcm_seal gcm_open aes_ctr hmac_sha256 siv_seal siv_open ->
+  forall c h f d salt prefix skR ct info p, primitive_supported c f d = true ->
+    (ecies_decrypt ec_dh ec_oncurve ec_decompress hkdf gcm_open aes_ctr hmac_sha256 siv_open
+       c h f d salt prefix skR ct info = Ok p <->
+     exists kem key iv, encoding_size c f = Ok (length kem) /\
+       ecies_decapsulate ec_dh ec_oncurve ec_decompress hkdf c h f salt info (dem_key_size d) skR kem = Ok key /\
+       length iv = dem_iv_size d /\
+       ct = prefix ++ kem ++ dem_frame gcm_seal aes_ctr hmac_sha256 siv_seal d key iv p).
+Proof. intros until siv_open. intros HL. use_ecies_laws HL. intros. eapply ecies_decrypt_iff; eassumption. Qed.
+Print Assumptions C06_ecies_decrypt_accepts_exactly.
+
+(* Symbolic binding: change the KEM bytes and/or the info, leave the DEM
+   ciphertext: acceptance exhibits an HKDF collision, or one DEM ciphertext valid
+   under two different DEM keys. *)
+Theorem C06_ecies_binding_kem_and_info :
+  forall ec_dh ec_pub ec_oncurve ec_decompress hkdf gcm_seal gcm_open aes_ctr hmac_sha256 siv_seal siv_open,
+  ecies_laws ec_dh ec_pub ec_oncurve ec_decompress hkdf gcm_seal gcm_open aes_ctr hmac_sha256 siv_seal siv_open ->
+  forall c h f d salt prefix skR pkR eph iv info pt ct kem body kem' info' p',
+    ec_pub c skR = Some pkR ->
+    ecies_encrypt ec_dh ec_pub ec_oncurve hkdf gcm_seal aes_ctr hmac_sha256 siv_seal
+      c h f d salt prefix pkR eph iv info pt = Ok ct ->
+    ct = prefix ++ kem ++ body -> encoding_size c f = Ok (length kem) -> length kem' = length kem ->
+    (kem' <> kem \/ info' <> info) ->
+    ecies_decrypt ec_dh ec_oncurve ec_decompress hkdf gcm_open aes_ctr hmac_sha256 siv_open
+      c h f d salt prefix skR (prefix ++ kem' ++ body) info' = Ok p' ->
+    hkdf_collision hkdf \/ dem_key_collision gcm_seal aes_ctr hmac_sha256 siv_seal.
+Proof. intros until siv_open. intros HL. use_ecies_laws HL. intros. eapply ecies_binding_kem_info; eassumption. Qed.
+Print Assumptions C06_ecies_binding_kem_and_info.
+
+(* The recipient recomputes the sender's ciphertext byte for byte from the KEM
+   bytes and DEM IV it carries (what the correspondence evaluates on Tink's output). *)
+Theorem C06_ecies_ciphertext_recomputable :
+  forall ec_dh ec_pub ec_oncurve ec_decompress hkdf gcm_seal gcm_open aes_ctr hmac_sha256 siv_seal siv_open,
+  ecies_laws ec_dh ec_pub ec_oncurve ec_decompress hkdf gcm_seal gcm_open aes_ctr hmac_sha256 siv_seal siv_open ->
+  forall c h f d salt prefix skR pkR eph iv info pt ct,
+    ec_pub c skR = Some pkR -> length iv = dem_iv_size d ->
+    ecies_encrypt ec_dh ec_pub ec_oncurve hkdf gcm_seal aes_ctr hmac_sha256 siv_seal
+      c h f d salt prefix pkR eph iv info pt = Ok ct ->
+    ecies_recompute ec_dh ec_oncurve ec_decompress hkdf gcm_seal aes_ctr hmac_sha256 siv_seal
+      c h f d salt prefix skR ct info pt = Ok ct.
+Proof. intros until siv_open. intros HL. use_ecies_laws HL. intros. eapply ecies_recompute_eq; eassumption. Qed.
+Print Assumptions C06_ecies_ciphertext_recomputable.
 
 (* Never Panic, for every ciphertext of every length (no law needed). *)
 Theorem C06_ecies_decrypt_never_panics :
@@ -326,7 +413,7 @@ Proof. intros. apply ecies_binding_prefix; assumption. Qed.
 Print Assumptions C06_ecies_binding_prefix.
 
 Example C06_ecies_nonvacuous :
-  ecies_laws toy_ec_dh toy_ec_pub toy_ec_oncurve toy_ec_decompress toy_gcm_seal toy_gcm_open
+  ecies_laws toy_ec_dh toy_ec_pub toy_ec_oncurve toy_ec_decompress toy_hkdf toy_gcm_seal toy_gcm_open
     toy_aes_ctr toy_hmac toy_siv_seal toy_siv_open /\
   let skR := zeros 32 in
   let iv := zeros 12 in
@@ -346,7 +433,9 @@ Example C06_ecies_nonvacuous :
 Proof.
   split.
   - split; [exact toy_ec_dh_comm|]. split; [exact toy_ec_pub_shape|]. split; [exact toy_ec_decompress_compress|].
-    split; [exact toy_gcm_open_seal|]. split; [exact toy_gcm_seal_len|]. split; [exact toy_aes_ctr_involutive|].
-    split; [exact toy_hmac_len|exact toy_siv_open_seal].
+    split; [exact toy_hkdf_len|].
+    split; [exact toy_gcm_open_seal|]. split; [exact toy_gcm_open_sound|]. split; [exact toy_gcm_seal_len|].
+    split; [exact toy_aes_ctr_involutive|]. split; [exact toy_hmac_len|].
+    split; [exact toy_siv_open_seal|exact toy_siv_open_sound].
   - vm_compute. split; reflexivity.
 Qed.
